@@ -451,6 +451,15 @@ impl<'a, C: Crypto + 'a> CaseInitiator<'a, C> {
         })?;
 
         // Step 7: Build and send Sigma3
+        //
+        // `send_with` can call its closure again for an MRP retransmission, and the closure
+        // adds Sigma3 to the transcript. S3K is derived from the transcript hash over Sigma1
+        // and Sigma2 only, so capture that hash once, up-front, to keep every Sigma3
+        // byte-identical and decryptable by the responder.
+        let mut tt_hash = MaybeUninit::<Hash>::uninit();
+        let tt_hash = tt_hash.init_with(Hash::init());
+        initiator.casep.current_tt_hash(tt_hash)?;
+
         let mut tt_updated = false;
         exchange
             .send_with(|exchange_ref, tw| {
@@ -459,9 +468,13 @@ impl<'a, C: Crypto + 'a> CaseInitiator<'a, C> {
 
                     tw.start_struct(&TLVTag::Anonymous)?;
                     tw.str_cb(&TLVTag::Context(1), |buf| {
-                        initiator
-                            .casep
-                            .sigma3_encrypt(crypto, fabric, signature.reference(), buf)
+                        initiator.casep.sigma3_encrypt(
+                            crypto,
+                            fabric,
+                            tt_hash.reference(),
+                            signature.reference(),
+                            buf,
+                        )
                     })?;
                     tw.end_container()?;
 
